@@ -77,6 +77,7 @@ tasks:
   t1: {command: ["echo t1 >> $TRACE; exit ${ST_t1:-0}"]}
   t2: {command: ["echo t2 >> $TRACE; exit ${ST_t2:-0}"]}
   t3: {command: ["echo t3 >> $TRACE; exit ${ST_t3:-0}"], allow_failure: true}
+  t6: {command: ["echo t6 >> $TRACE; /bin/echo -e 'plain \\033[32mgreen\\033[0m \\033[1;4mbold\\033[0m'; /bin/echo -e '\\033[31mred'; exit ${ST_t6:-0}"]}
   t4: {command: ["true"], before: ["echo t4 >> $TRACE; exit ${ST_t4:-0}"], allow_failure: true}
   t5: {command: ["echo t5 >> $TRACE", "if [ ${ST_t5:-0} != 0 ]; then sleep 3; fi"], timeout: 400ms, allow_failure: true}
   p1a: {command: ["echo p1 >> $TRACE"]}
@@ -96,7 +97,7 @@ func cliTargetsCase(col *Collector, focus string, dir string, targets []string, 
 	defer os.Remove(trace)
 	env := []string{"TRACE=" + trace}
 	var oks []string
-	for _, n := range []string{"t1", "t2", "t3", "t4", "t5", "p1", "p2"} {
+	for _, n := range []string{"t1", "t2", "t3", "t4", "t5", "t6", "p1", "p2"} {
 		env = append(env, fmt.Sprintf("ST_%s=%d", n, st[n]))
 		// t3 allows failure; t4 and t5 allow failure too, but fail in ways allow_failure does not cover
 		// (a failing before hook, a command that overruns the task's timeout)
@@ -174,7 +175,7 @@ func runCliTargets(col *Collector, focus, tier string, rng *rand.Rand) {
 	dir := newScratchDir("c07")
 	defer os.RemoveAll(dir)
 	os.WriteFile(filepath.Join(dir, "c07.yaml"), []byte(c07Config), 0644)
-	names := []string{"t1", "t2", "t3", "t4", "t5", "p1", "p2"}
+	names := []string{"t1", "t2", "t3", "t4", "t5", "t6", "p1", "p2"}
 	type job struct {
 		targets []string
 		st      map[string]int
@@ -252,6 +253,11 @@ func runCliTargets(col *Collector, focus, tier string, rng *rand.Rand) {
 			fixed = append(fixed, job{[]string{first, "t2"}, map[string]int{"t1": 0, "t2": 0, "t3": 0, "t4": 2, "t5": 1, "p1": 0, "p2": 0}, form, nil, nil, nil})
 			fixed = append(fixed, job{[]string{"t3", first, "t1"}, map[string]int{"t1": 0, "t2": 0, "t3": 9, "t4": 2, "t5": 1, "p1": 0, "p2": 0}, form, nil, nil, nil})
 		}
+	}
+	// a task whose (external) commands print colour codes, under every presentation option: still its own status
+	for _, g := range gpool[2:] {
+		fixed = append(fixed, job{[]string{"t6", "t2"}, map[string]int{"t1": 0, "t2": 0, "t3": 0, "t4": 0, "t5": 0, "t6": 0, "p1": 0, "p2": 0}, "root", nil, g, nil})
+		fixed = append(fixed, job{[]string{"t6", "t2"}, map[string]int{"t1": 0, "t2": 0, "t3": 0, "t4": 0, "t5": 0, "t6": 9, "p1": 0, "p2": 0}, "run", nil, g, nil})
 	}
 	jobs = append(jobs, fixed...)
 	parallel(len(jobs), 16, func(i int) {
